@@ -4,13 +4,14 @@ CONSTANTS
   T2 = "traceId"
   P1 = "trace.parent_id"
   P2 = "parentId"
-  IdConfigs <- IdConfigsQuick
+  IdConfigs <- IdConfigsPairs
   RuleSets <- RuleSetsQuick
   Events <- EventsQuick
-  Paths = {"event-json", "event-msgp", "batch-json", "batch-msgp", "otlp-http", "otlp-grpc", "otlp-logs", "peer-batch"}
+  Paths = {"event-json", "batch-json", "batch-msgp", "otlp-http", "otlp-grpc", "peer-batch"}
   FixedT1 = {"otlp-http", "otlp-httpjson", "otlp-grpc"}
-  LogPaths = {"event-json", "event-msgp", "batch-json", "batch-msgp", "otlp-http", "otlp-grpc", "otlp-logs", "peer-batch"}
+  LogPaths = {"otlp-logs"}
   MaxDrive = 2
+  Both = TRUE
   Refresh = "always"
 CHECK_DEADLOCK FALSE
 INVARIANTS TypeOK C21LiveBelongs C21LiveConfiguredOrder C21LiveRoot C21LiveHistoryFree ViewOK
